@@ -367,6 +367,47 @@ def falsify(ctx, hints):
             except Exception as e:  # noqa
                 fails.append(Failure(f"formula:{kind}:raises", f"{kind} raises {type(e).__name__}: {e}",
                                      {"series": spec, "shift": -kk}, repr(e), "a series", f"irispie.{kind}(x, {-kk})"))
+        # 1b. formulas on sign-changing data (no logs), and keyword shifts against the documented reference period
+        spec2 = {**spec, "rows": [[(v if rng.random() < 0.6 else -v) for v in r] for r in spec["rows"]]}
+        x2 = sc.mk_series(spec2); X2 = np.array(spec2["rows"])
+        for kind in ("diff", "roc", "pct", "adiff", "aroc", "apct"):
+            kk = 1 if kind.startswith("a") else k
+            try:
+                y = getattr(ir, kind)(x2) if kind.startswith("a") else getattr(ir, kind)(x2, -kk)
+                got = y.get_data(ir.Span(x2.start + kk, x2.end))
+                want = _formula(kind, X2[kk:], X2[:-kk], f)
+                info["formula_checks"] += 1
+                if not _close(got, want):
+                    fails.append(Failure(f"formula:{kind}:signed", f"{kind} differs from its documented formula on sign-changing data",
+                                         {"series": spec2, "shift": -kk}, got.tolist(), want.tolist(), f"irispie.{kind}(x, {-kk})"))
+            except Exception as e:  # noqa
+                fails.append(Failure(f"formula:{kind}:signed:raises", f"{kind} raises {type(e).__name__}: {e}", {"series": spec2}))
+        if freq in (2, 4, 12) and length >= 3:
+            ser = [spec["start"] + i for i in range(length)]
+            val = {t: X[i] for i, t in enumerate(ser)}
+            for kw in ("yoy", "soy", "eopy", "tty"):
+                for kind in ("diff", "roc", "pct", "diff_log"):
+                    try:
+                        y = getattr(ir, kind)(x, kw)
+                        info["formula_checks"] += 1
+                        for t in ser:
+                            seg = t % freq + 1
+                            ref = {"yoy": t - freq, "soy": (t // freq) * freq, "eopy": (t // freq) * freq - 1,
+                                   "tty": (t - 1) if seg > 1 else None}[kw]
+                            if ref is None or ref not in val:
+                                continue
+                            want = _formula(kind, val[t], val[ref], f)
+                            got = y.get_data(sc.mk_period(freq, t))[0]
+                            if not _close(got, want):
+                                fails.append(Failure(f"keyword:{kw}:{kind}", f"{kind}(x, '{kw}') at serial {t} is not f(x_t, x_ref) with the documented reference period",
+                                                     {"series": spec, "shift": kw, "t": t, "ref": ref}, got.tolist(), np.asarray(want).tolist(),
+                                                     f"irispie.{kind}(x, '{kw}')"))
+                                raise StopIteration
+                    except StopIteration:
+                        pass
+                    except Exception as e:  # noqa
+                        fails.append(Failure(f"keyword:{kw}:{kind}:raises", f"{kind}(x, '{kw}') raises {type(e).__name__}: {e}"[:200],
+                                             {"series": spec, "shift": kw}))
         # 2. cumulation inverts change, forward and backward, original series as initial condition
         for base, cum in (("diff", "cum_diff"), ("diff_log", "cum_diff_log"), ("pct", "cum_pct"), ("roc", "cum_roc")):
             for direction in ("forward", "backward"):
